@@ -138,6 +138,9 @@ func dupBlob(t *rapid.T, sz gen.Sizes, maxLen int) []gen.Piece {
 		return []gen.Piece{{Kind: kind, Len: l, B: 0xa5}}
 	}
 	unit := 1 + gen.Around(t, "unit", 6*mx, mn, mx)
+	if unit > maxLen && maxLen > 0 {
+		unit = maxLen
+	}
 	ps := []gen.Piece{{Kind: "rand", Len: unit, Seed: rapid.Uint64().Draw(t, "useed")}}
 	left := maxLen - unit
 	m := rapid.IntRange(1, 6).Draw(t, "more")
@@ -169,6 +172,20 @@ func dupBlob(t *rapid.T, sz gen.Sizes, maxLen int) []gen.Piece {
 	}
 	return ps
 }
+
+// largeSizes: chunk-size triples whose max lies above 256 KiB (desync's default max), with a min
+// large enough that random data really yields chunks above 256 KiB.
+var largeSizes = []gen.Sizes{
+	{Min: 270_000, Avg: 300_000, Max: 524_288},
+	{Min: 64 * 1024, Avg: 256 * 1024, Max: 1024 * 1024},
+	{Min: 262_145, Avg: 262_145, Max: 400_000},
+	{Min: 500_000, Avg: 800_000, Max: 1024 * 1024},
+}
+
+const kib256 = 256 * 1024
+
+// largeMix: one generated case in 50 uses sizes above 256 KiB (inputs of up to ~4 chunks).
+var largeMix = func() []bool { m := make([]bool, 50); m[17] = true; return m }()
 
 func genSizes(t *rapid.T) gen.Sizes {
 	switch rapid.IntRange(0, 5).Draw(t, "szc") {
@@ -239,12 +256,17 @@ func genCase(t *rapid.T) Case {
 	if lim := hx.Pick(160_000, 1_500_000); maxLen > lim {
 		maxLen = lim
 	}
+	large := rapid.SampledFrom(largeMix).Draw(t, "large")
+	if large {
+		c.Sizes = rapid.SampledFrom(largeSizes).Draw(t, "lsizes")
+		maxLen = int(c.Sizes.Max)*rapid.IntRange(1, 2).Draw(t, "lmult") + rapid.IntRange(0, 70_000).Draw(t, "lrest")
+	}
 	if c.Op == "chop" || c.Op == "make" || c.Op == "copy" || c.Op == "stream" {
 		c.Target = rapid.SampledFrom(targetMix).Draw(t, "target")
 	}
 	if c.Target != "" && c.Target != "mem" {
 		// real stores cost a file or a request per chunk: keep these inputs small
-		if lim := int(c.Sizes.Avg) * rapid.IntRange(1, 40).Draw(t, "tmult"); maxLen > lim {
+		if lim := int(c.Sizes.Avg) * rapid.IntRange(1, 40).Draw(t, "tmult"); maxLen > lim && !large {
 			maxLen = lim
 		}
 		c.Unc = c.Target != "http" && rapid.Bool().Draw(t, "unc")
@@ -634,6 +656,11 @@ func run(c Case) (o hx.Outcome) {
 		}
 		judge(&o, j)
 	}
+	// the statement's "can be read back": also through desync's own read path of the target
+	readBack := 0
+	if realTarget && op != "storage" && j.err == nil {
+		readBack = readBackThrough(&o, "C06:"+op+":"+tg.tag, tg.desc, tg.store, j.must, blob)
+	}
 	delivered := len(tgDelivered) + len(srcDelivered)
 
 	// two workers that asked the target about the same ID (visible for Copy only: ChunkStorage
@@ -721,6 +748,28 @@ func run(c Case) (o hx.Outcome) {
 			o.Class("error-returned")
 		}
 	}
+	bigChunks := 0
+	for _, ch := range idx.Chunks {
+		if ch.Size > kib256 {
+			bigChunks++
+		}
+	}
+	if sz.Max > kib256 {
+		o.Class("sizes:max>256KiB")
+	}
+	if bigChunks > 0 {
+		o.Class("chunk>256KiB")
+	}
+	if readBack > 0 {
+		o.Class("readback:desync-getchunk", "readback:"+tg.kind)
+		if bigChunks > 0 {
+			if tg.kind == "http" || !c.Unc {
+				o.Class("chunk>256KiB:compressed-target", "chunk>256KiB:compressed-target:"+tg.kind)
+			} else {
+				o.Class("chunk>256KiB:uncompressed-target")
+			}
+		}
+	}
 	jobSite := map[string]string{"chop": "chop.job", "make": "chop.job", "copy": "copy.job", "stream": "chunkstream.job", "storage": "storage.job"}[op]
 	if len(c.Perturb) > 0 && hits[jobSite] > 0 {
 		o.Class("perturbed:" + jobSite)
@@ -735,6 +784,39 @@ func run(c Case) (o hx.Outcome) {
 		"faults": fdesc, "delivered": delivered, "prefill_every": c.PrefillEvery, "flip_chunk": flipChunk, "err": j.err != nil}
 	o.Key = fmt.Sprintf("%s/%d/%s/%v/%d/%v/%d/%d/%d/%v/%s/%v", op, len(blob), hx.Hash8(blob), sz, n, fdesc, delivered, c.PrefillEvery, flipChunk, c.SrcMissing, tg.desc, blocked)
 	return o
+}
+
+// readBackThrough reads every chunk of the index through the store under test itself (GetChunk
+// with verification on, Data) and compares the bytes with the input range. Returns the number
+// of chunks read.
+func readBackThrough(o *hx.Outcome, p, target string, st desync.Store, must []desync.IndexChunk, blob []byte) int {
+	seen := map[desync.ChunkID]bool{}
+	n, failed, differs := 0, 0, 0
+	for i, ch := range must {
+		if seen[ch.ID] || ch.Start+ch.Size > uint64(len(blob)) {
+			continue
+		}
+		seen[ch.ID] = true
+		n++
+		chunk, err := st.GetChunk(ch.ID)
+		var data []byte
+		if err == nil {
+			data, err = chunk.Data()
+		}
+		switch {
+		case err != nil:
+			if failed == 0 {
+				o.Fail(p+"readback-fails", "the operation into %s reported success but chunk %d (%s, %d bytes) cannot be read back through the store's GetChunk: %v", target, i, shortID(ch.ID), ch.Size, err)
+			}
+			failed++
+		case !bytes.Equal(data, blob[ch.Start:ch.Start+ch.Size]):
+			if differs == 0 {
+				o.Fail(p+"readback-differs", "the operation into %s reported success but GetChunk of chunk %d (%s) returns %d bytes that differ from the input range [%d,+%d)", target, i, shortID(ch.ID), len(data), ch.Start, ch.Size)
+			}
+			differs++
+		}
+	}
+	return n
 }
 
 // runStorage drives desync.ChunkStorage directly: Rounds passes over the chunk list by n
@@ -842,7 +924,8 @@ var spec = &hx.Spec[Case]{
 	Rule: "cases = (blob with many duplicate chunks: constant runs of k*max, repeats of earlier content; (min,avg,max); n in 1..16; operation in {make = IndexFromFile+ChopFile, ChopFile with a reference-built index, " +
 		"Copy over the index's IDs incl. duplicates, ChunkStream, ChunkStorage used directly with retries; thorough: desync make/chop/cache/tar -i against a harness HTTP store}; target optionally prefilled; " +
 		"target store of chop/make/copy/stream in {MemStore; desync.LocalStore in a scratch directory (compressed/uncompressed; optionally with a regular file in place of a prefix directory; optionally in a child process under RLIMIT_FSIZE so that chunk file writes are cut short); " +
-		"desync.S3Store through the in-process fake S3 (compressed/uncompressed, ErrorRetry 0/1/3, scripted 403 on the k-th PUT/HEAD); desync.RemoteHTTP -> desync.NewHTTPHandler -> LocalStore (ErrorRetry 0/1/3, scripted 500 on the k-th PUT/HEAD)}, judged on the backing files/objects read through a back door; " +
+		"desync.S3Store through the in-process fake S3 (compressed/uncompressed, ErrorRetry 0/1/3, scripted 403 on the k-th PUT/HEAD); desync.RemoteHTTP -> desync.NewHTTPHandler -> LocalStore (ErrorRetry 0/1/3, scripted 500 on the k-th PUT/HEAD)}, judged on the backing files/objects read through a back door and, after success, by reading every chunk back through the store's own GetChunk (bytes == input range); " +
+		"chunk sizes incl. triples with max above 256 KiB (512 KiB..1 MiB, inputs of a few chunks) so that chunks larger than desync's default maximum are stored and read back; " +
 		"index op: the reference index written through an io.Writer failing after k bytes, or through RemoteHTTPIndex (desync's HTTPIndexHandler over LocalIndexStore / a plain handler; faulted PUT attempts x ErrorRetry 0/1/3 x fault mode), S3IndexStore, SFTPIndexStore, LocalIndexStore; nil => stored bytes decode to exactly that index, unabsorbed fault => error, nothing partial under the name after an error; " +
 		"fault schedule = set of (store, call kind has/store/get, call number k) that fail (CLI: the k-th HEAD/PUT/GET answers 500); ChopFile also on a file with one bit flipped after indexing; perturbation vector for chop.job/copy.job/chunkstream.job and the store callbacks); " +
 		"TestEnum: every single k (1..calls+1) x every call kind x every operation x several n for inputs of <= 40 chunks, and a bit flip in every chunk; " +
@@ -865,6 +948,8 @@ var spec = &hx.Spec[Case]{
 		"scheduled-not-delivered", "dup-race-possible", "same-id-asked-twice", "flip", "flip-in-duplicated-chunk", "prefilled", "prefilled-all", "src-missing", "success", "error-returned",
 		"perturbed:chop.job", "perturbed:copy.job", "perturbed:chunkstream.job", "storage:retry-after-failure", "empty-index",
 		"target:mem", "target:local", "target:s3", "target:http", "target:uncompressed", "s3:error-retry=0", "s3:error-retry=1", "s3:error-retry=3", "http:error-retry=0", "http:error-retry=3",
+		"sizes:max>256KiB", "chunk>256KiB", "readback:desync-getchunk", "readback:local", "readback:s3", "readback:http", "chunk>256KiB:compressed-target",
+		"chunk>256KiB:compressed-target:local", "chunk>256KiB:compressed-target:s3", "chunk>256KiB:compressed-target:http", "chunk>256KiB:uncompressed-target",
 		"index-target:http", "index-target:http-plain", "index-target:s3", "index-target:local", "index-target:sftp", "index-target:http:first-put-fails-then-ok", "index-target:http:all-attempts-fail",
 		"index-target:http:error-retry=0", "index-target:http:error-retry=3", "index-target:s3:fault-delivered", "index-target:local:dir-in-the-way", "index:stored", "index:store-error",
 		"s3:fault-not-absorbed", "s3:fault-absorbed-by-retry", "http:fault-not-absorbed", "http:fault-absorbed-by-retry", "local:blocked-dir", "local:short-write", "local:short-write-delivered"},
@@ -879,7 +964,7 @@ func TestMain(m *testing.M) {
 		childMain(job) // never returns
 	}
 	if cliEnabled() {
-		spec.Required = append(spec.Required, "op:cli-make", "op:cli-chop", "op:cli-cache", "op:cli-tar", "op:cli-index", "cli-index:first-put-fails-then-ok", "cli:delivered-500", "cli:exit-0", "cli:exit-nonzero")
+		spec.Required = append(spec.Required, "op:cli-make", "op:cli-chop", "op:cli-cache", "op:cli-tar", "cli:readback", "cli:chunk>256KiB", "op:cli-index", "cli-index:first-put-fails-then-ok", "cli:delivered-500", "cli:exit-0", "cli:exit-nonzero")
 	}
 	hx.Main(m)
 }
@@ -1011,6 +1096,18 @@ func TestEnumTargets(t *testing.T) {
 					}
 				}
 			}
+		}
+	}
+	// chunks above 256 KiB (sizes 270000:300000:524288; random, an all-zero run of two max-size chunks, a repeat) into every real target
+	big := []gen.Piece{{Kind: "rand", Len: 650_000, Seed: 41}, {Kind: "zero", Len: 2 * 524_288}, {Kind: "repeat", Len: 400_000, Off: 0}}
+	for i, cfg := range []tcfg{{"local", false, 0}, {"local", true, 0}, {"s3", false, 3}, {"s3", true, 0}, {"http", false, 3}, {"local", false, 0}, {"s3", false, 1}, {"http", false, 0}} {
+		if !mine() {
+			continue
+		}
+		c := Case{Op: []string{"chop", "make", "copy", "stream"}[i%4], Pieces: big, Sizes: largeSizes[0], N: 1 + i%3, Target: cfg.target, Unc: cfg.unc, Retry: cfg.retry}
+		cases++
+		if !hx.Case(t, spec, c) {
+			return
 		}
 	}
 	// short writes: limits at and around the chunk sizes of the input (max = 256)
